@@ -143,6 +143,34 @@ def coq_make(targets, timeout=3000):
         return r.returncode == 0, r.stdout
 
 
+_DEPS = None
+
+
+def coq_depends(target, dep):
+    """does coq/<target>.v depend (transitively) on coq/<dep>.v ?  (coqdep on the whole directory, cached)"""
+    global _DEPS
+    if _DEPS is None:
+        _DEPS = {}
+        files = sorted(f for f in os.listdir(COQ) if f.endswith('.v'))
+        r = sh(['coqdep', '-Q', '.', 'Theo'] + files, cwd=COQ)
+        for line in r.stdout.splitlines():
+            if ':' not in line:
+                continue
+            lhs, rhs = line.split(':', 1)
+            m = re.match(r'\s*(\w+)\.vo\b', lhs)
+            if not m:
+                continue
+            _DEPS[m.group(1)] = set(x[:-3] for x in rhs.split() if x.endswith('.vo'))
+    seen, todo = set(), [target]
+    while todo:
+        x = todo.pop()
+        for d in _DEPS.get(x, ()):
+            if d not in seen:
+                seen.add(d)
+                todo.append(d)
+    return dep in seen
+
+
 def build_model():
     """Extracted OCaml model driver; returns (path, error_text)."""
     ok, out = coq_make(['Extract.vo'])
